@@ -212,3 +212,47 @@ theorem dfs_total (nbrs : α → List α) (U : List α) (hU : ∀ x, x ∈ U →
       exact fold (nbrs p) (g ++ [p]) (fun q hq => hU p hp q hq) (by omega)
 
 end Hdl21.Dfs
+
+/-! ## The discovered group does not depend on the order in which neighbours are enumerated   (C12) -/
+namespace Hdl21.Dfs
+variable {α : Type} [DecidableEq α]
+
+omit [DecidableEq α] in
+/-- reachability only looks at *which* neighbours a node has -/
+theorem Reach.congr {nbrs nbrs' : α → List α} (h : ∀ a x, x ∈ nbrs a → x ∈ nbrs' a) {a b : α}
+    (r : Reach nbrs a b) : Reach nbrs' a b := by
+  induction r with
+  | refl _ => exact .refl _
+  | step hb _ ih => exact .step (h _ _ hb) ih
+
+omit [DecidableEq α] in
+theorem dfsList_nodup (f : α → List α → Option (List α))
+    (hf : ∀ q g g', f q g = some g' → g.Nodup → g'.Nodup) :
+    ∀ (qs : List α) (g g' : List α), dfsList f qs g = some g' → g.Nodup → g'.Nodup
+  | [], g, g', h, hg => by
+    simp only [dfsList] at h; injection h with h; subst h; exact hg
+  | q :: rest, g, g', h, hg => by
+    rw [dfsList] at h
+    cases hd : f q g with
+    | none => simp [hd] at h
+    | some g1 =>
+      simp only [hd] at h
+      exact dfsList_nodup f hf rest g1 g' h (hf q g g1 hd hg)
+
+/-- a node enters the group once -/
+theorem dfs_nodup (nbrs : α → List α) : ∀ (fuel : Nat) (p : α) (g g' : List α),
+    dfs nbrs fuel p g = some g' → g.Nodup → g'.Nodup
+  | 0, _, _, _, h, _ => by simp [dfs] at h
+  | fuel + 1, p, g, g', h, hg => by
+    rw [dfs] at h
+    split at h
+    · injection h with h; subst h; exact hg
+    · rename_i hp
+      refine dfsList_nodup (dfs nbrs fuel) (dfs_nodup nbrs fuel) (nbrs p) (g ++ [p]) g' h ?_
+      rw [List.nodup_append]
+      refine ⟨hg, by simp, ?_⟩
+      intro a ha b hb
+      simp at hb; subst hb
+      intro hab; subst hab; exact hp ha
+
+end Hdl21.Dfs
